@@ -115,6 +115,23 @@ M = [
      "    if (is_stopping(oldState) && op_count(oldState) == 1) {",
      "    if (op_count(oldState) == 1) {",
      "v0 scope: last finished operation sets the event even if the scope is not stopping (join completes early later)"),
+    # ---- round 2: traits / async_trace / streams / when_any
+    ("m50", "C20", "include/unifex/then.hpp",
+     "  tag_invoke(tag_t<visit_continuations>, const type& r, Visit&& visit) {\n    std::invoke(visit, r.receiver_);",
+     "  tag_invoke(tag_t<visit_continuations>, const type& r, Visit&& visit) {\n    (void)r; (void)visit;",
+     "then's receiver no longer reports its continuation (async_trace chain broken)"),
+    ("m51", "C05", "include/unifex/when_any.hpp",
+     "                   std::call_once(onceFlag, []() noexcept {});\n                   return just_done();",
+     "                   return just_done();",
+     "when_any: done-first no longer latches (reverts fix 4183820)"),
+    ("m52", "C13", "include/unifex/delay.hpp",
+     "          return finally(\n              static_cast<decltype(sender)>(sender),\n              schedule_after(scheduler, duration));",
+     "          return finally(\n              static_cast<decltype(sender)>(sender),\n              schedule_after(scheduler, duration / 2));",
+     "delay() waits only half the duration"),
+    ("m53", "C11", "include/unifex/then.hpp",
+     "  static constexpr bool sends_done = sender_traits<Predecessor>::sends_done;",
+     "  static constexpr bool sends_done = false;",
+     "then() claims sends_done=false"),
 ]
 
 
